@@ -4,13 +4,15 @@ C07 — Result codecs round-trip every result and follow the documented layout.
 Property theorems only; the layer lemmas live in `Vegeta/Proofs/Codec*.lean`
 (Decimal, Base64, CSV, MIME, RFC3339, JSONString, CSVResult, JSONResult, SpecJSON) and are
 restated here where they are a clause of their own, so that the per-theorem axiom audit sees them.
-The gob *value* codec is not modelled (correspondence only); gob framing is C09.
+The gob value encoding of `Result` is modelled in Model/GobValue.lean (type-definition preamble as a
+constant checked against the real encoder on every run); gob framing and cuts are C09.
 -/
 import Vegeta.Proofs.CodecCSVResult
 import Vegeta.Proofs.CodecJSONResult
 import Vegeta.Proofs.CodecRFC3339
 import Vegeta.Proofs.SpecJSON
 import Vegeta.Proofs.StreamCut
+import Vegeta.Proofs.GobValueResult
 import Vegeta.Extracted.Facts
 namespace Vegeta.Props.C07
 open Vegeta.Go Vegeta.Model.Codec Vegeta.Proofs.Codec
@@ -183,6 +185,65 @@ theorem spec_reader_agrees_json (offMin : Int) (ho : offMin.natAbs < 1440) (r : 
   obtain ⟨b', hb', hd⟩ := json_roundtrip_record offMin ho r hr
   rw [hb] at hb'; cases hb'
   exact ⟨b, hb, hs, hd⟩
+
+/-! ### gob: the value encoding (Model/GobValue.lean) -/
+
+section Gob
+open Vegeta.Model.GobFrame Vegeta.Model.GobValue Vegeta.Proofs.Gob
+
+/-- gob varints, zig-zag integers and length-prefixed strings / []byte round-trip, whatever follows -/
+theorem gob_scalar_layers (n : Nat) (hn : n < 2 ^ 64) (i : Int) (hi : inS64 i) (b rest : Bytes)
+    (hb : b.length < 2 ^ 64) :
+    decUint (encodeUint n ++ rest) = some (n, rest) ∧ decInt (gInt i ++ rest) = some (i, rest) ∧
+    decBytes (gBytes b ++ rest) = some (b, rest) :=
+  ⟨decUint_encodeUint n hn rest, decInt_gInt i hi rest, decBytes_gBytes b rest hb⟩
+
+/-- `time.Time`: `UnmarshalBinary (MarshalBinary t)` restores the instant in every zone (versions 1 and 2) -/
+theorem gob_time_layer (z : Zone) (ts : Int) (b : Bytes)
+    (hs : -9223372036854775808 ≤ ts / 1000000000 + unixToInternal ∧ ts / 1000000000 + unixToInternal < 9223372036854775808)
+    (h : timeBinary z ts = some b) : decTimeBinary b = some ts := decTimeBinary_timeBinary z ts b hs h
+
+/-- `map[string][]string` with distinct keys round-trips in the iteration order given -/
+theorem gob_header_layer (h : Header) (rest : Bytes) (hn : h.length < 2 ^ 64) (hd : (h.map (·.1)).Nodup)
+    (hk : ∀ kv ∈ h, kv.1.length < 2 ^ 64 ∧ kv.2.length < 2 ^ 64 ∧ ∀ v ∈ kv.2, v.length < 2 ^ 64) :
+    decHeader (gHeader h ++ rest) = some (h, rest) := decHeader_gHeader h rest hn hd hk
+
+/-- one value message decodes (into a zero `Result`) to the written result -/
+theorem gob_value_roundtrip (z : Zone) (r : Result) (hz : ZoneOK z) (hr : ReprGobResult z r) :
+    ∃ p, valuePayload z r = some p ∧ p.length < tooBig ∧ decValue p = some (gobDecoded r) :=
+  decValue_valuePayload z r hz hr
+
+/-- **gob: decode (encode rs) = rs, then end-of-stream**, for every sequence of results of the gob domain
+`ReprGobResult` (arbitrary bytes in texts, body and header values; full numeric ranges; timestamps
+1970–2200 in UTC or any zone `MarshalBinary` accepts; header maps with distinct keys in any iteration
+order = list order; value message below gob's 2^33-byte limit): the stream is the four type-definition
+messages followed by one value message per result, and the decoder returns results `Equal` to the
+written ones, then io.EOF. -/
+theorem gob_roundtrip (z : Zone) (rs : List Result) (hz : ZoneOK z) (hrs : ∀ r ∈ rs, ReprGobResult z r) :
+    ∃ s out, encodeGobAll z rs = some s ∧ decodeGob s = (out, .eof) ∧ equalAll out rs = true :=
+  gob_roundtrip_equal z rs hz hrs
+
+theorem gob_roundtrip_explicit (z : Zone) (rs : List Result) (hz : ZoneOK z) (hrs : ∀ r ∈ rs, ReprGobResult z r) :
+    ∃ s, encodeGobAll z rs = some s ∧ decodeGob s = (rs.map gobDecoded, .eof) :=
+  decodeGob_encodeGobAll z rs hz hrs
+
+/-- **… for every iteration order of the header map**: whichever permutation `h'` of the entries the
+encoder happens to emit, the decoded result is `Equal` to the original -/
+theorem gob_roundtrip_any_key_order (z : Zone) (hz : ZoneOK z) (r : Result) (h h' : Header)
+    (hh : r.headers = some h) (hp : h'.Perm h) (hr' : ReprGobResult z { r with headers := some h' }) :
+    ∃ p out, valuePayload z { r with headers := some h' } = some p ∧ decValue p = some out ∧ out.equal r = true := by
+  obtain ⟨p, hp1, _, hp2⟩ := decValue_valuePayload z _ hz hr'
+  refine ⟨p, _, hp1, hp2, ?_⟩
+  have hn' : (h'.map (·.1)).Nodup := hr'.headers h' rfl
+  have hn : (h.map (·.1)).Nodup := ((hp.map (·.1)).nodup_iff).1 hn'
+  have hb : ((if (r.body.getD []).isEmpty = true then none else r.body) : Option Bytes).getD [] = r.body.getD [] := by
+    cases hbody : r.body with
+    | none => simp
+    | some b => cases b <;> simp
+  simp only [gobDecoded, Result.equal, hh, beq_self_eq_true, Bool.true_and, Bool.and_true, hb]
+  exact headerEqual_of_perm h' h hp hn
+
+end Gob
 
 /-! ### Documented layout: obligations on the regenerated source facts
 
